@@ -181,6 +181,9 @@ pub struct CbCfg {
     /// the configuration starts from a preset (`CircuitBreakerLayer::fast_fail()`) and overrides
     /// every setting afterwards, instead of starting from `builder()`
     pub preset_start: bool,
+    /// the inner service spends its latency inside `call()` (synchronous work before the
+    /// future is returned) instead of inside the future
+    pub latency_inside_call: bool,
 }
 
 /// Gate and invocation log of the (optionally gated) fallback function.
@@ -235,7 +238,7 @@ impl CbCfg {
             self.slow_rate,
             if self.custom_classifier && self.classifier_first { "custom(set first)" } else if self.custom_classifier { "custom" } else { "default" },
             self.fallback,
-            if self.fallback_gated { "(pending until released)" } else if self.wait_shave_us > 0 { " (wait minus sub-ms part)" } else if self.preset_start { " (fast_fail() preset, then overridden)" } else { "" }
+            if self.fallback_gated { "(pending until released)" } else if self.wait_shave_us > 0 { " (wait minus sub-ms part)" } else if self.preset_start { " (fast_fail() preset, then overridden)" } else if self.latency_inside_call { " (latency spent inside call())" } else { "" }
         )
     }
     pub fn site(&self) -> &'static str {
